@@ -220,7 +220,7 @@ def run_cfgs(c, cfgs, tmp, stream):
                                                      ("numbers", "batches", "reload_numbers", "error")}})
         pairs.append(model_pair(cfg, obs))
         metas.append((cfg, obs))
-    bad, _ = core.run_cases("Prelude Batch", pairs)
+    bad, _ = core.safe_run_cases(c, "Prelude Batch", pairs)
     for i in bad:
         cfg, obs = metas[i]
         if not oracle(cfg, obs):
